@@ -499,37 +499,81 @@ What is proved here is the *dispatch and capture logic*.  That the two arms comp
 is NOT proved in this file: it is property C04's business (tied there by differential streams on
 the real code), and the two theorems that need it say so in their names and take it as hypotheses. -/
 
-/-- **An object's arm is fixed at construction.**  `dsa.Signer` / `ssa.Signer` / `_TweakChain` ask the
-    dispatch predicate once, in `__init__`; whatever flips, constructions and calls follow, the arm an
-    existing object uses is the one it captured (no hypothesis on the arms). -/
-theorem captured_arm_fixed_at_construction {χ ν : Type} (fC fPy : χ → ν) (ops : List (CapOp χ))
-    (st : CapState) (i : Nat) (arm : Bool) (h : st.objs[i]? = some arm) :
-    (Cap.run fC fPy ops st).2.objs[i]? = some arm := by
-  induction ops generalizing st with
-  | nil => exact h
-  | cons op ops ih =>
-    simp only [Cap.run]
-    apply ih
-    cases op with
-    | set serving installed => simp only [Cap.step]; split <;> exact h
-    | build served =>
-      simp only [Cap.step]
-      have hi : i < st.objs.length := by
-        rcases Nat.lt_or_ge i st.objs.length with hlt | hge
-        · exact hlt
-        · rw [List.getElem?_eq_none hge] at h; cases h
-      rw [List.getElem?_append_left hi]; exact h
-    | use j x => simp only [Cap.step]; split <;> exact h
-    | call served x => exact h
+/-- **Built while serving ⇒ keeps delegating.**  An object that holds a bindings object (`dsa.Signer` /
+    `ssa.Signer` / `_TweakChain` built for a served (ec, hf) while the flag was up) still holds it after any
+    history of flips, constructions, uses and free calls that does not make *it* let go (a tweak chain's
+    step onto infinity), and a use of it then delegates whatever the flag says (no hypothesis on the arms). -/
+theorem held_object_keeps_delegating {χ ν : Type} (fC fPy : χ → ν) (ops : List (CapOp χ))
+    (st : CapState) (i : Nat) (o : CapObj) (h : st.objs[i]? = some o) (hh : o.held = true)
+    (hn : noDrop i ops = true) (x : χ) :
+    (Cap.run fC fPy ops st).2.objs[i]? = some o ∧
+    (Cap.step fC fPy (.use i x) (Cap.run fC fPy ops st).2).2 = some (.ok (fC x)) := by
+  have key : (Cap.run fC fPy ops st).2.objs[i]? = some o := by
+    induction ops generalizing st with
+    | nil => exact h
+    | cons op ops ih =>
+      simp only [Cap.run]
+      cases op with
+      | set serving installed =>
+        apply ih _ _ (by simpa [noDrop] using hn)
+        simp only [Cap.step]; split <;> exact h
+      | build served inner =>
+        apply ih _ _ (by simpa [noDrop] using hn)
+        exact getElem?_snoc_left _ _ _ _ h
+      | use j y =>
+        apply ih _ _ (by simpa [noDrop] using hn)
+        simp only [Cap.step]; split <;> exact h
+      | drop j y =>
+        have hj : j ≠ i := by
+          simp only [noDrop, Bool.and_eq_true, bne_iff_ne, ne_eq] at hn; exact hn.1
+        apply ih _ _ (by simp only [noDrop, Bool.and_eq_true] at hn; exact hn.2)
+        simp only [Cap.step]
+        split
+        · simp only [dropAt_get, h, Option.map_some]
+          have : ¬ i = j := fun e => hj e.symm
+          simp [this]
+        · exact h
+      | call served y => exact ih _ h (by simpa [noDrop] using hn)
+  refine ⟨key, ?_⟩
+  simp [Cap.step, key, CapObj.delegates, hh]
 
-/-- and it is the flag as it stood when the object was built: a signer built while the bindings serve
-    keeps delegating after `set_libsecp256k1_serving(serving=False)`, and conversely. -/
-theorem captured_arm_is_flag_at_construction {χ ν : Type} (fC fPy : χ → ν) (ops : List (CapOp χ))
-    (st : CapState) (served : Bool) :
-    (Cap.run fC fPy (.build served :: ops) st).2.objs[st.objs.length]? = some (st.flag && served) := by
-  simp only [Cap.run, Cap.step]
-  apply captured_arm_fixed_at_construction
-  simp
+/-- **Built while NOT serving (or unserved, or after letting go) ⇒ follows the flag at use.**  An object that
+    holds no bindings object never comes to hold one, through any history; each use of it goes to the free
+    code path, which asks the predicate again: it delegates exactly when the flag is up *at that moment* and
+    the free path's sites are served.  (So a Signer built with the switch off starts delegating when the
+    switch is turned on.) -/
+theorem unheld_object_follows_flag {χ ν : Type} (fC fPy : χ → ν) (ops : List (CapOp χ))
+    (st : CapState) (i : Nat) (o : CapObj) (h : st.objs[i]? = some o) (hh : o.held = false) (x : χ) :
+    (Cap.run fC fPy ops st).2.objs[i]? = some o ∧
+    (Cap.step fC fPy (.use i x) (Cap.run fC fPy ops st).2).2 =
+      some (.ok (if (Cap.run fC fPy ops st).2.flag && o.inner then fC x else fPy x)) := by
+  have key : (Cap.run fC fPy ops st).2.objs[i]? = some o := by
+    induction ops generalizing st with
+    | nil => exact h
+    | cons op ops ih =>
+      simp only [Cap.run]
+      apply ih
+      cases op with
+      | set serving installed => simp only [Cap.step]; split <;> exact h
+      | build served inner => exact getElem?_snoc_left _ _ _ _ h
+      | use j y => simp only [Cap.step]; split <;> exact h
+      | drop j y =>
+        simp only [Cap.step]
+        split
+        · simp only [dropAt_get, h, Option.map_some]
+          split
+          · cases o; simp_all
+          · rfl
+        · exact h
+      | call served y => exact h
+  refine ⟨key, ?_⟩
+  simp [Cap.step, key, CapObj.delegates, hh]
+
+/-- what construction decides: the new object holds a bindings object iff the flag is up and (ec, hf) is served. -/
+theorem built_object_holds_iff_serving_and_served {χ ν : Type} (fC fPy : χ → ν) (st : CapState)
+    (served inner : Bool) :
+    (Cap.step fC fPy (.build served inner : CapOp χ) st).1.objs[st.objs.length]? = some ⟨st.flag && served, inner⟩ := by
+  simp [Cap.step]
 
 /-- **History independence, GIVEN that the arms are equal (C04).**  If both arms compute `M`, every use
     of an object built under any earlier flag value, and every free call, answers `M x` — what a
@@ -544,7 +588,7 @@ theorem captured_objects_answer_fresh_given_arms_equal {χ ν : Type} (fC fPy M 
     | set serving installed =>
       simp only [Cap.run, Cap.step, Cap.reference]
       split <;> simp [ih]
-    | build served => simp only [Cap.run, Cap.step, Cap.reference, ih]
+    | build served inner => simp only [Cap.run, Cap.step, Cap.reference, ih]
     | use i x =>
       simp only [Cap.run, Cap.step, Cap.reference, ih]
       rcases Nat.lt_or_ge i st.objs.length with hlt | hge
@@ -552,6 +596,13 @@ theorem captured_objects_answer_fresh_given_arms_equal {χ ν : Type} (fC fPy M 
         simp only [this, hlt, if_true]
         split <;> simp [hC, hPy]
       · simp [List.getElem?_eq_none hge, Nat.not_lt.mpr hge]
+    | drop i x =>
+      simp only [Cap.run, Cap.step, Cap.reference]
+      rcases Nat.lt_or_ge i st.objs.length with hlt | hge
+      · have : st.objs[i]? = some st.objs[i] := List.getElem?_eq_getElem hlt
+        simp only [this, hlt, if_true, ih]
+        split <;> simp [hC, hPy]
+      · simp [List.getElem?_eq_none hge, Nat.not_lt.mpr hge, ih]
     | call served x =>
       simp only [Cap.run, Cap.step, Cap.reference, ih]
       split <;> simp [hC, hPy]
@@ -613,10 +664,13 @@ example : (Signer.run dsaCode [.sign true, .enter, .sign true, .exit, .sign true
     [.sig, .self_, .sig, .none_, .err .value] := by decide
 -- secp256k1 and the curve generated by −G (toy numbers): different keys
 example : curveKey ⟨23, 0, 7, 1, 10, 29, 1⟩ ≠ curveKey ⟨23, 0, 7, 1, 13, 29, 1⟩ := by decide
--- a signer built while serving keeps delegating after the switch is turned off; a free call does not
+-- a signer built while serving keeps delegating after the switch is turned off (a free call does not); one built
+-- with the switch off follows the flag; a chain that let go follows the flag too
 example : (Cap.run (fun _ : Nat => "C") (fun _ => "P")
-    [.build true, .set false true, .use 0 7, .call true 7, .build true, .set true true, .use 1 7, .use 0 7] ⟨true, []⟩).1 =
-    [none, none, some (.ok "C"), some (.ok "P"), none, none, some (.ok "P"), some (.ok "C")] := by decide
+    [.build true true, .set false true, .use 0 7, .call true 7, .build true true, .use 1 7, .set true true, .use 1 7,
+     .use 0 7, .drop 0 7, .set false true, .use 0 7] ⟨true, []⟩).1 =
+    [none, none, some (.ok "C"), some (.ok "P"), none, some (.ok "P"), none, some (.ok "C"),
+     some (.ok "C"), some (.ok "C"), none, some (.ok "P")] := by decide
 -- a wallet: address(0,5), address(0,2), next(0) → index 6; a bad branch changes nothing
 def demoSrc : Source Nat := ⟨[0, 1], fun b i => if i < 100 then some (b.toNat * 1000 + i + 1) else none, fun a => a == 0⟩
 example : (Wallet.run demoSrc [.address 0 5, .address 0 2, .next 0, .address 7 0, .next 1, .len] Wallet.empty).1 =
